@@ -203,6 +203,16 @@ def check_ref(obj, ref, tol=1e-8):
             return ("layout" if perm else "value",
                     "HS matrices are the right products but not laid out as the reported shape says"
                     if perm else "HS matrices are not those of the Kronecker products of the factors")
+        # look-up by outcome label: the tuple addresses the row-major entry under the reported shape
+        if len(exp_shape) >= 1:
+            for k, idx in enumerate(np.ndindex(*exp_shape)):
+                lab = tuple(int(i) for i in idx)
+                try:
+                    got = obj.hs(lab)
+                except Exception as e:  # noqa
+                    return ("label", f"hs({lab}) raises {type(e).__name__}: {e}")
+                if not np.array_equal(got, obj.hss[k]):
+                    return ("label", f"hs({lab}) of a product measurement process of shape {exp_shape} is not the row-major entry {k}")
         return None
     if ref.kind == "E":
         if type(obj) != StateEnsemble:
@@ -221,6 +231,13 @@ def check_ref(obj, ref, tol=1e-8):
                 return ("system-order", "ensemble state system order")
             if abs(obj.prob_dist.ps[k] - p) > tol or not np.allclose(mat_in(B, st.vec), rho, atol=tol):
                 return ("value", f"ensemble entry {idx} is not the product state / product probability")
+            lab = tuple(int(i) for i in idx)
+            try:
+                st_l, p_l = obj.state(lab), obj.prob_dist[lab]
+            except Exception as e:  # noqa
+                return ("label", f"look-up by outcome label {lab} raises {type(e).__name__}: {e}")
+            if st_l is not st or p_l != obj.prob_dist.ps[k]:
+                return ("label", f"state({lab}) / prob_dist[{lab}] of a product ensemble of shape {exp_shape} is not the row-major entry {k}")
             k += 1
         return None
     return ("type", "no reference")
@@ -841,6 +858,11 @@ def oracle_embed(ctx, volume=1):
             if num > 1:
                 continue
             ks = qobj.rand_kraus(g, 3, 1, 1 + t % 3)[0]
+            if t % 2 == 1:
+                # nearly unitary gate with a weak noise component (Kraus weight 1e-6 ... 1e-11): still a physical gate
+                pw = [1e-9, 1e-6, 1e-11][(t // 2) % 3]
+                ks = [np.sqrt(1 - pw) * qobj.rand_unitary(g, 3), np.sqrt(pw) * qobj.rand_unitary(g, 3)]
+                rep = dict(rep, noise_weight=pw)
             groups = qobj.rand_kraus(g, 3, m, 1 + t % 2)
             try:
                 G3 = Gate(c3, hs_in(B3, ks))
@@ -873,6 +895,40 @@ PARTIAL = [
     {"theorem": "embedding for >= 3 qutrits", "missing": "embedding = V M V^H + coeff (1 - V V^H) is proved for every isometric relabelling (embed_state_physical, embed_povm_physical, embed_kraus_tp, embed_statistics); that the coded index permutation IS such a relabelling is proved for 1 and 2 qutrits (embedEntry_one_eq, embedEntry_two_eq, finite), not for general num_qutrits; the Kraus round trip around it is C02's; the 2*num_qutrits != len(e_syss) guard is not modelled"},
 ]
 
+
+
+
+def oracle_list_forms(ctx, volume=1):
+    """`tensor_product` accepts lists of operands anywhere among its arguments: every way of handing over the same
+    operands (flat, one list, several lists, a list that is not the first argument) gives the same product"""
+    g = ctx.npgen(12)
+    for ts in ("SSS", "PPP"):
+        names = sorted(int(x) for x in g.choice(list(range(-2, 8)), size=3, replace=False))
+        counts = counts_for(3, g)
+        fs0 = [make_factor(g, ts[i], names[i], 2, counts[i], t=i) for i in range(3)]
+        for perm in ((0, 1, 2), (2, 0, 1), (1, 2, 0)):
+            a, b, c = [fs0[i] for i in perm]
+            forms = {"(a,[b,c])": (a.obj, [b.obj, c.obj]), "([a,b],c)": ([a.obj, b.obj], c.obj), "(a,b,[c])": (a.obj, b.obj, [c.obj]),
+                     "([a],[b,c])": ([a.obj], [b.obj, c.obj]), "([a,b,c])": ([a.obj, b.obj, c.obj],), "(a,[b],c)": (a.obj, [b.obj], c.obj)}
+            ref = Ref(a.kind, [a, b, c])
+            for name, args in forms.items():
+                rep = {"replay_kind": "list-forms", "types": ts, "names": [f.esys.name for f in (a, b, c)], "form": name,
+                       "seed": ctx.seed, "tier": ctx.tier, "volume": volume}
+                ctx.case(("list-forms", ts, perm, name), sample={"op": "tensor_product list arguments", "form": name, "types": ts})
+                try:
+                    obj = tensor_product(*args)
+                except Exception as e:  # noqa
+                    ctx.violate("C07/tensor_product/list-arguments/raises", f"{type(e).__name__}: {e} for tensor_product{name}", rep)
+                    continue
+                if type(obj) == StateEnsemble:
+                    continue
+                got = [e.name for e in obj.composite_system.elemental_systems]
+                if got != sorted(f.esys.name for f in (a, b, c)):
+                    ctx.violate("C07/tensor_product/list-arguments/value", f"tensor_product{name} acts on subsystems {got}: operands were dropped", rep)
+                    continue
+                bad = check_ref(obj, ref)
+                if bad:
+                    ctx.violate("C07/tensor_product/list-arguments/value", f"tensor_product{name}: {bad[1]}", rep)
 
 
 def oracle_sequences(ctx, volume=1):
@@ -960,6 +1016,7 @@ def oracle(ctx, volume=1):
     oracle_embed(ctx, volume)
     oracle_sequences(ctx, volume)
     oracle_povm_accessors(ctx, volume)
+    oracle_list_forms(ctx, volume)
 
 
 def search(ctx):
